@@ -5,6 +5,7 @@ import (
 	"fmt"
 	"os"
 	"runtime/debug"
+	"runtime/pprof"
 	"time"
 )
 
@@ -63,6 +64,12 @@ func WorkerMain(p *Program) {
 	if out == nil {
 		out = os.Stdout
 	}
+	if pf := os.Getenv("VERIF_CPUPROFILE"); pf != "" {
+		if f, err := os.Create(pf); err == nil {
+			pprof.StartCPUProfile(f)
+			defer func() { pprof.StopCPUProfile(); f.Close() }()
+		}
+	}
 	debug.SetMaxStack(256 << 20)
 	debug.SetGCPercent(200)
 	switch job.Mode {
@@ -84,6 +91,7 @@ func WorkerMain(p *Program) {
 		fmt.Fprintln(os.Stderr, "verif worker: bad mode", job.Mode)
 		os.Exit(2)
 	}
+	pprof.StopCPUProfile()
 	os.Exit(0)
 }
 
@@ -138,9 +146,14 @@ func workerRun(p *Program, job *Job) {
 			}
 			seenSig[v.Signature] = true
 			nviol++
-			rp := &Replay{Violation: v, Case: c}
+			vc := c
+			if v.Case != nil {
+				vc = v.Case
+				v.Case = nil
+			}
+			rp := &Replay{Violation: v, Case: vc}
 			if job.MaxViol == 0 || nviol <= job.MaxViol {
-				rp = Minimise(env, chk, c, v)
+				rp = Minimise(env, chk, vc, v)
 			}
 			send(Msg{T: "viol", I: i, Replay: rp})
 		}
